@@ -7,6 +7,7 @@ from gen import trxd_consts
 ID = "C15"
 LEVEL = "proof"
 LEAN_MODULES = ["OsmoVerif.Props.C15"]
+DRIVER_MODULES = ["Trxd", "TrxdDump"]
 LEAN_MODEL_MODULES = ["OsmoVerif.Model.TrxdDump", "OsmoVerif.Model.Trxd", "OsmoVerif.Lemmas.TrxdDump", "OsmoVerif.Lemmas.Trxd",
                       "OsmoVerif.Props.C01"]
 ASSUMPTIONS = [
